@@ -15,11 +15,15 @@ REQUIRED_THEOREMS = [
     'C13_scatter_gather', 'C13_all_heterogeneous_counterexample', 'C13_wrapped_pooled_counterexample',
     'C13_noise_is_standard_normal', 'C13_value', 'C13_value_times', 'C13_call_val', 'C13_call_neginf',
     'C13_grad', 'C13_grad_entry', 'C13_names_ids', 'C13_constructor_keeps_arguments',
-    'C13_constructor_repeatable', 'C13_constructor_alias_counterexample']
+    'C13_constructor_repeatable', 'C13_constructor_alias_counterexample', 'C13_history_keeps_results',
+    'C13_s1_returns_fresh', 'C13_results_held', 'C13_results_held_grad', 'C13_shared_buffer_counterexample']
 RULE = ('random population model (1-3 sub-models out of centred / non-centred Gaussian and log-normal, '
         'truncated Gaussian, pooled, heterogeneous, covariate-wrapped, reduced, 1-2 dims each; composed or '
         'bare), every filter class and compositions of them, fixed or free sigma, additive or log-scale '
-        'noise, n_samples 2-6, 1-3 observables, 1-4 unsorted unique times, toy mechanistic model; a case is '
+        'noise, n_samples 2-6, 1-3 observables, 1-4 unsorted unique times, toy mechanistic model; every '
+        'evaluable case ends with a call history on the one posterior object (4-7 evaluateS1 / __call__ at '
+        'several vectors incl. ones outside the support, results kept by the caller and read at the end, '
+        'the caller writing into a returned array or into the vector it passed); a case is '
         'non-trivial when it has a pooled / heterogeneous dimension or unsorted times; distinct = distinct '
         '(kinds with dims, filter, sigma mode, noise scale, n_samples, time-order class)')
 ASSUMPTIONS = ['prior, population density, individual-parameter transform and mechanistic model are '
@@ -446,11 +450,12 @@ def run_case(ctx, chi, rng, c, label='gen'):
     ev = ctx.model('C13.eval', *(args + [None, None]))
     ctx.branches.add('%s:%s' % (cls, core.fclass(ev[0])))
     y_model = np.array(ev[1], float)
-    if ev[0] == 'undef' or not (np.isfinite(y_model).all() or ev[0] == 'neginf'):
+    if ev[0] == 'undef' or popll == math.inf or not (np.isfinite(y_model).all() or ev[0] == 'neginf'):
         # outside the domain of the documented densities (nan individual parameters from a negative scale
         # of a non-centred model, non-positive simulated values under a log-normal filter, ...): plain
         # numpy arrays give nan, masked arrays additionally mask domain errors (-inf, or the cell is
-        # dropped); not modelled, not part of the property
+        # dropped); a population log-density of +inf is the truncated Gaussian's normalisation underflowing
+        # (mean more than 8 sigma below the truncation point); not modelled, not part of the property
         ctx.case('degenerate/' + cls)
         ctx.notes.append('degenerate case skipped (nan / non-positive simulated values)') if len(ctx.notes) < 3 else None
     else:
@@ -467,7 +472,7 @@ def run_case(ctx, chi, rng, c, label='gen'):
                                               np.asarray(dtheta, float).flatten().tolist()]))
         ctx.agree('C13.grad', g, np.array(ev2[5], float), inp, rtol=1e-7, atol=1e-9)
     # ---------------- a second posterior from the SAME argument objects (call sequence)
-    second_posterior(ctx, chi, c, post, inp, x, v, s1, g, ev, n)
+    post2 = second_posterior(ctx, chi, c, post, inp, x, v, s1, g, ev, n)
     # ---------------- the property on the real code
     tagc = cls
     sv = spec_value(chi, c, post, cfg, x, n_pop, n_top)
@@ -518,6 +523,9 @@ def run_case(ctx, chi, rng, c, label='gen'):
                 blk = 'pop' if k < n_pop else 'sigma' if k < n_top else 'bottom' if k < end_bottom else 'eps'
                 ctx.spec('C13.grad/%s/%s' % (tagc, blk), ok, inp,
                          {'x': x, 'coordinate': k, 'name': names_s[k], 'analytic': g[k], 'fd': est})
+    # ---------------- a call history on the ONE posterior object, results kept by the caller
+    pts, events = gen_history(c, rng, x, x2, n, n_pop, n_top, cfg)
+    call_history(ctx, post, post2, inp, pts, events)
 
 
 def own_filter_on_probe(post, c):
@@ -544,7 +552,7 @@ def second_posterior(ctx, chi, c, post, inp, x, v, s1, g, ev, n):
         err = core.errkind(e)
     ctx.spec('C13.same_arguments_same_posterior/constructible', err is None, inp, {'error': err})
     if err is not None:
-        return
+        return None
     check_args_unchanged(ctx, c, inp, 'after a second constructor call with the same objects')
     same_v = core.close(v, v_b, 1e-12) or not (math.isfinite(v) or math.isfinite(v_b))
     ctx.spec('C13.same_arguments_same_posterior/value', same_v and
@@ -568,6 +576,150 @@ def second_posterior(ctx, chi, c, post, inp, x, v, s1, g, ev, n):
         ctx.agree('C13.construct_seq.own_second', own2, ms[3], inp)
     if isinstance(ev[0], float) and math.isfinite(ev[0]) and math.isfinite(v_b):
         ctx.agree('C13.call.second_posterior', v_b, ev[0], inp)
+    return post2
+
+
+# ------------------------------------------------------------------------------------------------------
+# call histories: the caller keeps what evaluateS1 / __call__ returned while it goes on using the posterior
+# (a sampler holds the gradient of the current state while the proposal is evaluated, chains share one
+# posterior, (score, gradient) pairs are collected in a list and looked at afterwards)
+# ------------------------------------------------------------------------------------------------------
+def gen_history(c, rng, x, x2, n, n_pop, n_top, cfg):
+    """vectors (two regular ones, a third, one with an entry of the top block far outside, one with an
+    individual-level entry far outside) and a sequence of events on them"""
+    n_hdim = sum(s[0] for s in cfg[0] if s[2])
+    end_bottom = n_top + c.n_s * n_hdim
+    pts = [np.array(x, float), np.array(x2, float), gen_x(c, rng, n, n_pop, n_top, cfg)]
+    out_top = pts[1].copy()
+    out_top[int(rng.integers(n_top))] = -7.0
+    pts.append(out_top)
+    if end_bottom > n_top:
+        out_bottom = pts[2].copy()
+        out_bottom[int(rng.integers(n_top, end_bottom))] = -7.0
+        pts.append(out_bottom)
+    first = int(rng.integers(3))
+    events = [['s1', first], ['s1', int(rng.choice([i for i in range(len(pts)) if i != first]))]]
+    n_s1 = 2
+    for _ in range(int(rng.integers(2, 6))):
+        u = rng.random()
+        if u < 0.5:
+            events.append(['s1', int(rng.integers(len(pts)))])
+            n_s1 += 1
+        elif u < 0.7:
+            events.append(['call', int(rng.integers(len(pts)))])
+        elif u < 0.85:
+            # the caller writes into the array it got from an earlier evaluateS1 call
+            events.append(['scribble', int(rng.integers(n_s1)), float(rng.uniform(-3, 3))])
+        else:
+            # the caller changes, in place, the vector it passed to an earlier evaluateS1 call
+            events.append(['move', int(rng.integers(n_s1)), float(rng.uniform(0.1, 0.5))])
+    return pts, events
+
+
+def play_history(post, pts, events):
+    """runs the events on `post`; returns the evaluateS1 records (what the caller holds: the returned
+    objects themselves, NOT copied, plus a copy taken at the moment of return), the __call__ records and
+    the events for the model"""
+    recs, calls, wire = [], [], []
+    with np.errstate(all='ignore'):
+        for ide, ev in enumerate(events):
+            if ev[0] == 's1':
+                xin = pts[ev[1]].copy()
+                raw_s, raw_g = post.evaluateS1(xin)
+                recs.append({'event': ide, 'point': ev[1], 'xin': xin, 'raw_s': raw_s, 'raw_g': raw_g,
+                             'score': float(raw_s), 'expect': np.array(raw_g, float, copy=True),
+                             'at_return': np.array(raw_g, float, copy=True),
+                             'input_ok': bool(np.array_equal(xin, pts[ev[1]]))})
+                wire.append(['s1', recs[-1]['at_return'].tolist()])
+            elif ev[0] == 'call':
+                xin = pts[ev[1]].copy()
+                raw = post(xin)
+                calls.append({'event': ide, 'point': ev[1], 'raw': raw, 'value': float(raw),
+                              'input_ok': bool(np.array_equal(xin, pts[ev[1]]))})
+                wire.append(['call'])
+            elif ev[0] == 'scribble':
+                r = recs[ev[1]]
+                if isinstance(r['raw_g'], np.ndarray) and r['raw_g'].flags.writeable:
+                    r['raw_g'][...] = ev[2]
+                    r['expect'] = np.full(r['raw_g'].shape, ev[2], float)
+                    wire.append(['scribble', ev[1], r['expect'].tolist()])
+            elif ev[0] == 'move':
+                recs[ev[1]]['xin'] += ev[2]
+    return recs, calls, wire
+
+
+def call_history(ctx, post, post2, inp, pts, events):
+    inp = dict(inp, history_points=pts, history_events=events)
+    try:
+        recs, calls, wire = play_history(post, pts, events)
+        err = None
+    except Exception as e:  # noqa
+        err = core.errkind(e)
+    ctx.spec('C13.call_history/evaluable', err is None, inp, {'error': err})
+    if err is not None:
+        return
+    ctx.case('call_history/%d_s1' % min(len(recs), 4))
+    # (1) what the caller holds is, at the END of the history, what it was when it was returned
+    #     (or what the caller itself wrote into it)
+    for k, r in enumerate(recs):
+        later = events[r['event'] + 1:]
+        with np.errstate(all='ignore'):
+            now_g = np.array(r['raw_g'], float, copy=True)
+            now_s = float(r['raw_s'])
+        ctx.spec('C13.call_history/held_score', core.close(now_s, r['score'], 0.0), inp,
+                 {'evaluateS1 call no.': k, 'vector': pts[r['point']], 'score when returned': r['score'],
+                  'the same object after the later calls': now_s, 'later events': later})
+        if math.isfinite(r['score']):
+            ctx.spec('C13.call_history/held_gradient',
+                     now_g.shape == r['expect'].shape and bool(np.array_equal(now_g, r['expect'], equal_nan=True)),
+                     inp, {'evaluateS1 call no.': k, 'vector': pts[r['point']],
+                           'sensitivities when returned': r['at_return'],
+                           'the same array after the later calls': now_g, 'later events': later})
+    for r in calls:
+        with np.errstate(all='ignore'):
+            now = float(r['raw'])
+        ctx.spec('C13.call_history/held_value', core.close(now, r['value'], 0.0), inp,
+                 {'event': r['event'], 'value when returned': r['value'], 'after the later calls': now})
+    ctx.spec('C13.call_history/input_unchanged', all(r['input_ok'] for r in recs + calls), inp,
+             {'events whose vector was changed by the call': [r['event'] for r in recs + calls if not r['input_ok']]})
+    # the model: arrays by identity
+    ms = ctx.model('C13.s1_history', wire)
+    with np.errstate(all='ignore'):
+        ctx.agree('C13.s1_history.arrays_at_end', [np.array(r['raw_g'], float).tolist() for r in recs], ms[0], inp,
+                  rtol=0.0)
+    # (2) every result of the history is the result of a posterior that has no history: a second object
+    #     built from the same arguments, asked once per vector, result copied at once
+    if post2 is None:
+        return
+    ref = {}
+
+    def reference(i):
+        if i not in ref:
+            with np.errstate(all='ignore'):
+                val = float(post2(pts[i].copy()))
+                s, g = post2.evaluateS1(pts[i].copy())
+                ref[i] = (val, float(s), np.array(g, float, copy=True))
+        return ref[i]
+    try:
+        for k, r in enumerate(recs):
+            val, s, g = reference(r['point'])
+            same_s = core.close(r['score'], s, 1e-12) or not (math.isfinite(r['score']) or math.isfinite(s))
+            ctx.spec('C13.call_history/score', same_s, inp,
+                     {'event': r['event'], 'vector': pts[r['point']], 'in the history': r['score'],
+                      'posterior without history': s, 'earlier events': events[:r['event']]})
+            if math.isfinite(r['score']) and math.isfinite(s):
+                ctx.spec('C13.call_history/gradient', r['at_return'].shape == g.shape and
+                         core.close(r['at_return'], g, 1e-10, 1e-12), inp,
+                         {'event': r['event'], 'vector': pts[r['point']], 'in the history': r['at_return'],
+                          'posterior without history': g, 'earlier events': events[:r['event']]})
+        for r in calls:
+            val, s, g = reference(r['point'])
+            ctx.spec('C13.call_history/value', core.close(r['value'], val, 1e-12) or
+                     not (math.isfinite(r['value']) or math.isfinite(val)), inp,
+                     {'event': r['event'], 'vector': pts[r['point']], 'in the history': r['value'],
+                      'posterior without history': val, 'earlier events': events[:r['event']]})
+    except Exception as e:  # noqa
+        ctx.spec('C13.call_history/reference_evaluable', False, inp, {'error': core.errkind(e)})
 
 
 CORPUS = [
@@ -622,6 +774,15 @@ def replay(ctx, data):
             except Exception as e:  # noqa
                 print('chi raises', type(e).__name__, e)
             print('hand assembly (no constant)', spec_value(chi, c, post, cfg, x, n_pop, n_top))
+        if 'history_events' in inp:
+            pts = [np.array([math.nan if v == 'nan' else v for v in p], float) for p in inp['history_points']]
+            recs, calls, _ = play_history(post, pts, inp['history_events'])
+            for k, r in enumerate(recs):
+                now = np.array(r['raw_g'], float)
+                print('evaluateS1 call no. %d (event %d, vector %d): score %r; kept array %s' % (
+                    k, r['event'], r['point'], r['score'],
+                    'unchanged at the end of the history' if np.array_equal(now, r['expect'], equal_nan=True)
+                    else 'CHANGED by later calls: max. abs. change %g' % np.nanmax(np.abs(now - r['expect']))))
     if ctx.lean is not None:
         ctx.lean.close()
     return 0
